@@ -3,12 +3,14 @@ package engine
 import (
 	"encoding/json"
 	"fmt"
+	"os"
 	"path/filepath"
 	"sort"
 	"strings"
 	"sync"
 	"time"
 
+	"covr/internal/genr"
 	"covr/internal/verdict"
 	"covr/internal/work"
 )
@@ -32,6 +34,20 @@ func C17(c *Ctx) {
 	}
 	src := filepath.Join(sc.Dir, "stackmon", "src")
 	out := filepath.Join(sc.Dir, "stackmon", "out")
+	// PRNG loop nests, compiled together with the hand-written workload
+	nAuto := 60
+	if c.Thorough() {
+		nAuto = 400
+	}
+	autoSrc, autoReg, autoNames := genr.StackPrograms(nAuto, c.Seed)
+	if err := os.WriteFile(filepath.Join(src, "loops", "auto.go"), []byte(autoSrc), 0o644); err != nil {
+		c.Rep.HarnessError(err.Error())
+		return
+	}
+	if err := os.WriteFile(filepath.Join(sc.Dir, "stackmon", "auto_reg.go"), []byte(autoReg), 0o644); err != nil {
+		c.Rep.HarnessError(err.Error())
+		return
+	}
 	r := work.Run(work.Cmd{Dir: sc.Dir, Env: work.Env(), Argv: []string{ccdrv, "compile", src + ":" + out}, Timeout: 10 * time.Minute})
 	if !strings.Contains(string(r.Out), "OK:") {
 		c.Rep.HarnessError("compilation of the C17 workload failed:\n" + tail(string(r.Out), 3000))
@@ -163,6 +179,10 @@ func C17(c *Ctx) {
 				Replay: map[string]any{"only": id}})
 		}
 	}
+	for _, cfg := range autoNames {
+		configs = append(configs, cfg)
+		withFirst[cfg] = true
+	}
 	for _, cfg := range configs {
 		wg.Add(1)
 		go run(cfg, n, false)
@@ -178,7 +198,7 @@ func C17(c *Ctx) {
 	c.Rep.Set("iterations_between_yields", n)
 	c.Rep.Set("delegation_depth", chain)
 	c.Rep.Set("growth_bound_frames", maxGrowth)
-	c.Rep.Rule = "22 loop configurations (loop bodies that advance ANOTHER generator during the non-yielding stretch: flat-map over mostly empty sub-generators, manual pull, range over another generator; compiled for/while/infinite/continue/range-int/range-slice/switch/nested (inner three-clause, inner condition-only and endless loops without init that contain the yield, three levels)/filter-over-source generators produced by the real compiler, and raw seq.For/While/Loop/Combine terms incl. one inner loop VALUE re-run by an outer loop) whose body yields only on the last of n iterations, each also in the variant that yields at the first iteration too (the non-yielding stretch then follows a yield of the same loop run); runtime.Callers depth sampled inside the loop body/condition at iterations 2,10,100,...,n; oracle: depth(i>=10) - depth(10) <= 16 frames; delegation chains d=1..D: per-level increment constant (+4). One child process per configuration (a stack overflow is fatal). distinct = configuration x sampled iteration index."
+	c.Rep.Rule = "PRNG loop nests (60 quick / 400 thorough: 1..3 levels x seven loop forms incl. loops without init clause re-entered by an outer loop, decorated with Combine halves, monadic switches / ifs holding a never-taken yield, delegation to and consumer loops over an empty generator, closures, continue after the counter advanced) + 22 hand-written loop configurations (loop bodies that advance ANOTHER generator during the non-yielding stretch: flat-map over mostly empty sub-generators, manual pull, range over another generator; compiled for/while/infinite/continue/range-int/range-slice/switch/nested (inner three-clause, inner condition-only and endless loops without init that contain the yield, three levels)/filter-over-source generators produced by the real compiler, and raw seq.For/While/Loop/Combine terms incl. one inner loop VALUE re-run by an outer loop) whose body yields only on the last of n iterations, each also in the variant that yields at the first iteration too (the non-yielding stretch then follows a yield of the same loop run); runtime.Callers depth sampled inside the loop body/condition at iterations 2,10,100,...,n; oracle: depth(i>=10) - depth(10) <= 16 frames; delegation chains d=1..D: per-level increment constant (+4). One child process per configuration (a stack overflow is fatal). distinct = configuration x sampled iteration index."
 	c.Rep.Assumptions = append(c.Rep.Assumptions,
 		"the unbounded 'for all n' is restated as bounded growth up to the stated n; a finite run cannot decide more",
 		"growth, not absolute depth, is judged, so refactorings that add a constant number of frames pass")
